@@ -50,7 +50,7 @@ type Obligation struct {
 	Ms      int64
 	Model   string
 	Script  string
-	Lite    string // the same script without `uses` lemmas and recursive spec-function definitions ("" if identical)
+	Lite    string   // the same script without `uses` lemmas and recursive spec-function definitions ("" if identical)
 	ObsVars []ObsVar // terms whose model values are wanted for replay
 }
 
@@ -125,9 +125,11 @@ type FCtx struct {
 	inlineStack  []string
 	termination  []string
 	pureFacts    []string
-	seenDef      map[string]bool // names already defined/assigned (anchors of named asserts)
+	seenDef      map[string]int  // names already defined/assigned (anchors of named asserts)
 	anchored     map[string]bool // named asserts that found their anchor
 	panicStates  []*State        // states at the points where a defer-recover function may panic
+	unfolding    bool            // inside unfoldOnce (no nested unfolding)
+	curSpecials  loopSpecials    // specials of the innermost range loop whose body is being executed
 	ctxSuffixOf  map[string]string
 	cacheParent  map[string]string
 	cacheN       int
